@@ -54,6 +54,13 @@ func verifSnapshot(u *verifU) *verifSnap {
 			continue
 		}
 		m := u.st.Coins.GetCoin(c)
+		if m == nil {
+			// a coin id that a transaction of this harness may create
+			add("volume."+c.String(), "volume", nil, c, big.NewInt(0))
+			add("reserve."+c.String(), "reserve", nil, c, big.NewInt(0))
+			add("maxsupply."+c.String(), "maxsupply", nil, c, big.NewInt(0))
+			continue
+		}
 		add("volume."+c.String(), "volume", nil, c, m.Volume())
 		add("reserve."+c.String(), "reserve", nil, c, m.Reserve())
 		add("maxsupply."+c.String(), "maxsupply", nil, c, m.MaxSupply())
